@@ -342,6 +342,13 @@ def run(shard, rec, rng):
     pool = ["／", "∕", "⧸", "＼", "．", "．．", "..", "/", "\\", " ", "\t", "　", "ａ", "ｂ.ｔｘｔ", "é", "ß", "İ", "ﬁ", "㎏", "™", "a", "b", ".", "-", "_", "~", "\x00", "CON", "nul", "aux.txt", "\u202e", "\u200b"]
     for _ in range(cfg["sf_rand"]):
         sf("".join(rng.choice(pool) for _ in range(rng.randint(1, 8))))
+    # long names: length limits of file systems (255) and of anything that shortens names sit here; stems and
+    # extensions on both sides of them
+    for stem_len, ext_len in itertools.product((0, 1, 2, 200, 254, 255, 256, 400), (0, 1, 3, 254, 255, 256, 300)):
+        n += 1
+        if n % of == idx:
+            for stem_ch, ext_ch in (("x", "y"), ("é", "y"), ("_", "y"), ("x", ".")):
+                sf(stem_ch * stem_len + ("." + ext_ch * ext_len if ext_len else ""))
     rec.sample({"function": "safe_join", "base": "/srv/root", "components": ["sub", "..", "../secret.txt"]})
     rec.sample({"function": "static-file", "request_path": "%2e%2e%2fsecret.txt (also percent-decoded once)"})
     rec.sample({"function": "secure_filename", "input": "．．／ａ ｂ.ｔｘｔ"})
